@@ -2,7 +2,7 @@
    inputs to this function (extracted to OCaml) and to the JAX implementation. *)
 From Coq Require Import ZArith QArith Qcanon List Bool.
 From EXV Require Import Base.Scalar Base.FieldLemmas Base.Cplx Exec.Codec.
-From EXV Require Import Utils.Rollout Gen.ETDRK.
+From EXV Require Import Utils.Rollout Gen.ETDRK Gen.Guards.
 Import ListNotations.
 Local Open Scope Z_scope.
 
@@ -102,10 +102,42 @@ Definition run_c02 (sub : Z) (a : list Q) : list Q :=
   | _ => []
   end.
 
+(* ---- C20: rejection guards (Gen/Guards.v) ---- *)
+Definition zs (l : list Q) : list Z := map qz l.
+Definition run_c20 (sub : Z) (a : list Q) : list Q :=
+  let z i := qz (getq a i) in let b i := qb (getq a i) in
+  let r (x : bool) := [bq x] in
+  match sub with
+  | 1 => r (base_call_raises (z 0%nat) (z 1%nat) (z 2%nat) (zs (skipn 3 a)))
+  | 2 => r (repeated_call_raises (z 0%nat) (z 1%nat) (z 2%nat) (zs (skipn 3 a)))
+  | 3 => r (poisson_call_raises (z 0%nat) (z 1%nat) (zs (skipn 2 a)))
+  | 4 => r (laplace_order_raises (z 0%nat))
+  | 5 => r (gip_raises (z 0%nat) (z 1%nat) (zs (skipn 2 a)))
+  | 6 => r (make_incompressible_raises (zs a))
+  | 7 => r (ifft_raises (z 0%nat) (b 1%nat) (b 2%nat) (zs (skipn 3 a)))
+  | 8 => r (ic_options_raise (b 0%nat) (b 1%nat) (b 2%nat))
+  | 9 => r (spatial_norm_raises (b 0%nat) (z 1%nat))
+  | 10 => r (fourier_norm_raises (b 0%nat) (z 1%nat))
+  | 11 => r (general_nonlin_raises (z 0%nat))
+  | 12 => r (general_nonlin_stepper_raises (z 0%nat))
+  | 13 => let D := z 1%nat in
+          r (match z 0%nat with
+             | 0 => ns_vorticity_raises D | 1 => kolmogorov_vorticity_raises D | 2 => general_vorticity_raises D
+             | 3 => vorticity_conv_raises D | 4 => ns_velocity_raises D | 5 => kolmogorov_velocity_raises D
+             | _ => projected_conv_raises D end)
+  | 14 => let D := z 1%nat in let sh := zs (skipn 2 a) in
+          r (match z 0%nat with
+             | 0 => convection_cons_raises D sh | 1 => convection_noncons_raises D sh | _ => gray_scott_raises sh end)
+  | 15 => r (random_sine_raises (z 0%nat) (b 1%nat) (b 2%nat) (b 3%nat))
+  | 16 => r (stack_sub_raises (z 0%nat) (zs (skipn 1 a)))
+  | _ => []
+  end.
+
 Definition run (id : Z) (a : list Q) : list Q :=
   let '(prop, sub) := Z.div_eucl id 100 in
   match prop with
   | 14 => run_c14 sub a
   | 2 => run_c02 sub a
+  | 20 => run_c20 sub a
   | _ => []
   end.
